@@ -1,6 +1,6 @@
 (** non-vacuity for C18: a concrete history on which the hypotheses of the lookup theorems hold *)
-From Coq Require Import List NArith.
-From ApiFu Require Import Base.Sexp Api.PersistedQueryModel Api.PersistedQuerySpec Api.PersistedQueryProofs.
+From Coq Require Import String Ascii List NArith.
+From ApiFu Require Import Base.Sexp Api.PersistedQueryModel Api.PersistedQuerySpec Api.PersistedQueryProofs Api.Sha256.
 Import ListNotations.
 Open Scope N_scope.
 
@@ -14,4 +14,29 @@ Proof. intro t. unfold toy_sha. apply repeat_length. Qed.
 Example lookup_hits :
   snd (fst (step toy_sha false (fst (run toy_sha false [] hist)) {| rq_query := []; rq_ext := Some h_a |})) = Exec q_a
   /\ In q_a (registered hist) /\ denotes (ext_hash h_a) = Some (toy_sha q_a).
+Proof. vm_compute. repeat split. left; reflexivity. Qed.
+
+(** SHA-256 test vectors (FIPS 180-4 / NIST examples): "abc", the empty message, and the 56-byte
+    message whose padding spills into a second block; tests of the transcription, not theorems *)
+Example sha256_abc : hex_encode (sha256 [97; 98; 99]) =
+  map (fun c => N.of_nat (Ascii.nat_of_ascii c))
+      (String.list_ascii_of_string "ba7816bf8f01cfea414140de5dae2223b00361a396177a9cb410ff61f20015ad"%string).
+Proof. vm_compute. reflexivity. Qed.
+Example sha256_empty : hex_encode (sha256 []) =
+  map (fun c => N.of_nat (Ascii.nat_of_ascii c))
+      (String.list_ascii_of_string "e3b0c44298fc1c149afbf4c8996fb92427ae41e4649b934ca495991b7852b855"%string).
+Proof. vm_compute. reflexivity. Qed.
+Example sha256_two_blocks :
+  hex_encode (sha256 (map (fun c => N.of_nat (Ascii.nat_of_ascii c))
+     (String.list_ascii_of_string "abcdbcdecdefdefgefghfghighijhijkijkljklmklmnlmnomnopnopq"%string))) =
+  map (fun c => N.of_nat (Ascii.nat_of_ascii c))
+      (String.list_ascii_of_string "248d6a61d20638b8e5c026930c3e6039a33ce45964ff2167f6ecedd419db06c1"%string).
+Proof. vm_compute. reflexivity. Qed.
+
+(** the lookup theorems' hypotheses are met with the real digest *)
+Definition h_a256 : ext := {| ext_version_one := true; ext_hash := hex_encode (sha256 q_a) |}.
+Definition hist256 : list request := [ {| rq_query := q_a; rq_ext := Some h_a256 |} ].
+Example lookup_hits_sha256 :
+  snd (fst (step sha256 false (fst (run sha256 false [] hist256)) {| rq_query := []; rq_ext := Some h_a256 |})) = Exec q_a
+  /\ In q_a (registered hist256) /\ denotes (ext_hash h_a256) = Some (sha256 q_a).
 Proof. vm_compute. repeat split. left; reflexivity. Qed.
